@@ -28,7 +28,7 @@ Subset
                _0 .., kinds pure / monadic / store) become operations of the state-and-exception monad SM W of C14_PySem.v
                (mret / mbind / mraise / mfor); `x = A if c else B`; `if x is None` on optional values (match with the payload
                rebound); `for ... in zip(A, B)` / `enumerate(zip(A, B))` / `range(e)`; non-empty list literals; LIST * int;
-               `return LIST[e]`
+               `return LIST[e]`; a nested one-parameter `def f(x): return e` (closure over the variables in scope) and calls `f(a)`
 A function without `return` must be an effect function (signature key "effect_function"): it returns (final attributes..., effects).
 """
 import ast, json, os, sys
@@ -56,6 +56,9 @@ def coq_type(t):
         return t
     if t.startswith("opt:"):
         return "(option %s)" % coq_type(t[4:])
+    if t.startswith("fun:"):
+        a, b = t[4:].split(">", 1)
+        return "(%s -> %s)" % (coq_type(a), coq_type(b))
     if t == "optZ":
         return "(option Z)"
     if t == "str":
@@ -92,6 +95,8 @@ class Fn:
                 n.id += "_py"
             if isinstance(n, ast.arg) and n.arg in CLASH:
                 n.arg += "_py"
+            if isinstance(n, ast.FunctionDef) and n is not fdef and n.name in sig.get("local_funs", {}):
+                continue
             if isinstance(n, (ast.While, ast.Try, ast.With, ast.FunctionDef, ast.Lambda, ast.Global, ast.Nonlocal, ast.Yield, ast.YieldFrom,
                               ast.Await, ast.ClassDef, ast.Delete, ast.Import, ast.ImportFrom, ast.Assert, ast.Break, ast.Continue)) and n is not fdef:
                 fail(n, "construct outside the subset")
@@ -263,6 +268,13 @@ class Fn:
             if any(t != parts[0][1] for _, t in parts):
                 fail(e, "list literal with mixed types")
             return "[" + "; ".join(p for p, _ in parts) + "]", "list:" + parts[0][1]
+        if isinstance(e, ast.Call) and isinstance(e.func, ast.Name) and str(self.types.get(e.func.id, "")).startswith("fun:") \
+                and len(e.args) == 1 and not e.keywords:
+            ta_, tb_ = self.types[e.func.id][4:].split(">", 1)
+            a, ta = self.expr(e.args[0])
+            if ta != ta_:
+                fail(e, "local function %s expects %s, got %s" % (e.func.id, ta_, ta))
+            return "(%s %s)" % (e.func.id, a), tb_
         if isinstance(e, ast.Call) and isinstance(e.func, ast.Name):
             fn = e.func.id
             if fn == "len" and len(e.args) == 1 and not e.keywords:
@@ -315,6 +327,8 @@ class Fn:
                 pass
             elif old.startswith("list:") and typ == "list:?":
                 typ = old
+            elif self.loop is None and name in self.sig.get("retyped", []):
+                pass                                      # straight-line shadowing (listed in the signature), e.g. atol: Optional[float] -> float
             else:
                 fail(node, "variable %s changes type %s -> %s" % (name, old, typ))
         self.types[name] = typ
@@ -359,7 +373,7 @@ class Fn:
         if isinstance(s, (ast.Assign, ast.Expr, ast.Return)) and s.value is not None:
             if self.match_op(s.value, ("monadic",))[0] is not None:
                 return True
-            if isinstance(s, ast.Assign) and isinstance(s.value, ast.IfExp):
+            if isinstance(s, ast.Assign) and isinstance(s.value, ast.IfExp) and self.match_op(s.value, ("pure",))[0] is None:
                 return True
             if isinstance(s, ast.Assign) and len(s.targets) == 1 and self.match_store(s.targets[0])[0] is not None:
                 return True
@@ -395,6 +409,20 @@ class Fn:
         cont = lambda: self.stmts(rest, k)
         if isinstance(s, ast.Expr) and isinstance(s.value, ast.Constant) and isinstance(s.value.value, str):
             return cont()
+        if isinstance(s, ast.FunctionDef):
+            spec = self.sig.get("local_funs", {}).get(s.name)
+            body = [b for b in s.body if not (isinstance(b, ast.Expr) and isinstance(b.value, ast.Constant))]
+            if spec is None or self.loop is not None or len(body) != 1 or not isinstance(body[0], ast.Return) or s.decorator_list \
+                    or len(s.args.args) != 1 or s.args.vararg or s.args.kwarg or s.args.kwonlyargs or s.args.defaults:
+                fail(s, "nested function form")
+            x = s.args.args[0].arg
+            if x in self.types:
+                fail(s, "parameter %s of the nested function shadows a variable" % x)
+            self.types[x] = spec["param"]
+            v, t = self.expr(body[0].value)
+            del self.types[x]
+            self.types[s.name] = "fun:%s>%s" % (spec["param"], t)
+            return "let %s := (fun %s : %s => %s) in\n  %s" % (s.name, x, coq_type(spec["param"]), v, cont())
         if isinstance(s, ast.Return):
             if s.value is None or self.is_effect:
                 fail(s, "bare return / return in an effect function")
@@ -424,7 +452,7 @@ class Fn:
                     fail(s, "store operation outside a monadic function")
                 c, _ = self.op_call(s, sspec, sholes + [s.value])
                 return "(mbind %s (fun _ =>\n  %s))" % (c, cont())
-            if isinstance(s.value, ast.IfExp):
+            if isinstance(s.value, ast.IfExp) and self.match_op(s.value, ("pure",))[0] is None:
                 # x = A if c else B   ==   if c: x = A else: x = B
                 fake = ast.If(test=s.value.test, body=[ast.Assign(targets=[tg], value=s.value.body)], orelse=[ast.Assign(targets=[tg], value=s.value.orelse)])
                 for n in ast.walk(fake):
@@ -720,7 +748,10 @@ def main():
             src = open(os.path.join(repo, entry["file"])).read()
             fdef = find_def(ast.parse(src), entry)
             out.append("(* from %s : %s%s *)" % (entry["file"], entry.get("class", "") + "." if entry.get("class") else "", entry["function"]))
-            out.append(Fn(fdef, entry).translate())
+            try:
+                out.append(Fn(fdef, entry).translate())
+            except Unsupported as e:
+                raise Unsupported("in function %s (%s): %s" % (entry["function"], entry["file"], e))
             out.append("")
     except Unsupported as e:
         print("UNSUPPORTED: %s" % e)
